@@ -136,9 +136,10 @@ fn run_limits(text: &str, l: AL, max_nodes: usize, report: Option<&std::rc::Rc<s
     } else {
         o
     };
-    match serde_saphyr::from_str_with_options::<CountNodes>(text, o) {
-        Ok(c) => ("ok".into(), c.0),
-        Err(e) => (res_of(&e), 0),
+    match std::panic::catch_unwind(std::panic::AssertUnwindSafe(|| serde_saphyr::from_str_with_options::<CountNodes>(text, o))) {
+        Ok(Ok(c)) => ("ok".into(), c.0),
+        Ok(Err(e)) => (res_of(&e), 0),
+        Err(_) => ("PANIC".into(), 0),
     }
 }
 
